@@ -512,6 +512,289 @@ theorem unfolds_relabels (m : IdMap) : (ts : List T) → unfolds (relabels m ts)
   | t :: ts => by simp [relabels, unfolds, unfold_relabel m t, unfolds_relabels m ts]
 end
 
+
+/-! ### Acyclicity follows from consistency -/
+
+mutual
+/-- An object unfolded somewhere in a consistent term is no bigger than the term. -/
+theorem size_of_mem (h : Nat → T) (a : Nat) :
+    (t : T) → (F : Nat → Prop) → Consistent h F t → a ∈ addrs t → size (h a) ≤ size t
+  | .atom _, _, _, hm => by simp [addrs] at hm
+  | .ptr _ _, _, _, hm => by simp [addrs] at hm
+  | .node addr uniq s ks, F, hc, hm => by
+    simp only [Consistent] at hc
+    cases uniq with
+    | true =>
+      have hm' : a ∈ addrsL ks := by simpa [addrs] using hm
+      have := size_of_memL h a ks F hc.2 hm'
+      simp only [size]; omega
+    | false =>
+      simp only [addrs, Bool.false_eq_true, if_false, List.mem_cons] at hm
+      rcases hm with hm | hm
+      · subst hm; rw [hc.1 rfl]; exact Nat.le_refl _
+      · have := size_of_memL h a ks F hc.2 hm
+        simp only [size]; omega
+  | .clo addr s pre post, F, hc, hm => by
+    simp only [Consistent] at hc
+    simp only [addrs, List.mem_cons, List.mem_append] at hm
+    rcases hm with hm | hm | hm
+    · subst hm; rw [hc.1]; exact Nat.le_refl _
+    · have := size_of_memL h a pre F hc.2.1 hm
+      simp only [size]; omega
+    · have := size_of_memL h a post _ hc.2.2 hm
+      simp only [size]; omega
+theorem size_of_memL (h : Nat → T) (a : Nat) :
+    (ts : List T) → (F : Nat → Prop) → ConsistentL h F ts → a ∈ addrsL ts →
+      size (h a) ≤ sizeL ts
+  | [], _, _, hm => by simp [addrsL] at hm
+  | t :: ts, F, hc, hm => by
+    simp only [ConsistentL] at hc
+    simp only [addrsL, List.mem_append] at hm
+    rcases hm with hm | hm
+    · have := size_of_mem h a t F hc.1 hm
+      simp only [sizeL]; omega
+    · have := size_of_memL h a ts F hc.2 hm
+      simp only [sizeL]; omega
+end
+
+mutual
+theorem consistent_agrees (h : Nat → T) :
+    (t : T) → (F : Nat → Prop) → Consistent h F t → Agrees h F t
+  | .atom _, _, _ => by simp [Agrees]
+  | .ptr addr s, F, hc => by simpa [Agrees, Consistent] using hc
+  | .node addr uniq s ks, F, hc => by
+    simp only [Consistent] at hc
+    simp only [Agrees]
+    refine ⟨?_, consistent_agreesL h ks F hc.2⟩
+    intro hu
+    refine ⟨hc.1 hu, ?_⟩
+    intro hm
+    have := size_of_memL h addr ks F hc.2 hm
+    rw [hc.1 hu] at this
+    simp only [size] at this
+    omega
+  | .clo addr s pre post, F, hc => by
+    simp only [Consistent] at hc
+    simp only [Agrees]
+    refine ⟨hc.1, ?_, ?_, consistent_agreesL h pre F hc.2.1, consistent_agreesL h post _ hc.2.2⟩
+    · intro hm
+      have := size_of_memL h addr pre F hc.2.1 hm
+      rw [hc.1] at this
+      simp only [size] at this
+      omega
+    · intro hm
+      have := size_of_memL h addr post _ hc.2.2 hm
+      rw [hc.1] at this
+      simp only [size] at this
+      omega
+theorem consistent_agreesL (h : Nat → T) :
+    (ts : List T) → (F : Nat → Prop) → ConsistentL h F ts → AgreesL h F ts
+  | [], _, _ => by simp [AgreesL]
+  | t :: ts, F, hc => by
+    simp only [ConsistentL] at hc
+    exact ⟨consistent_agrees h t F hc.1, consistent_agreesL h ts F hc.2⟩
+end
+
+mutual
+theorem agrees_consistent (h : Nat → T) :
+    (t : T) → (F : Nat → Prop) → Agrees h F t → Consistent h F t
+  | .atom _, _, _ => by simp [Consistent]
+  | .ptr addr s, F, hc => by simpa [Agrees, Consistent] using hc
+  | .node addr uniq s ks, F, hc => by
+    simp only [Agrees] at hc
+    exact ⟨fun hu => (hc.1 hu).1, agrees_consistentL h ks F hc.2⟩
+  | .clo addr s pre post, F, hc => by
+    simp only [Agrees] at hc
+    exact ⟨hc.1, agrees_consistentL h pre F hc.2.2.2.1, agrees_consistentL h post _ hc.2.2.2.2⟩
+theorem agrees_consistentL (h : Nat → T) :
+    (ts : List T) → (F : Nat → Prop) → AgreesL h F ts → ConsistentL h F ts
+  | [], _, _ => by simp [ConsistentL]
+  | t :: ts, F, hc => by
+    simp only [AgreesL] at hc
+    exact ⟨agrees_consistent h t F hc.1, agrees_consistentL h ts F hc.2⟩
+end
+
+
+/-! ### Re-serialising the loaded graph gives the same stream -/
+
+mutual
+theorem serD_ext : (t : T) → (m : IdMap) → Ext m (serD m t).2
+  | .atom _, m => by simpa [serD] using Ext.refl m
+  | .ptr addr s, m => by
+    cases hl : lookup addr m <;> simpa [serD, hl] using Ext.refl m
+  | .node addr uniq s ks, m => by
+    cases uniq with
+    | true => simpa [serD] using serDs_ext ks m
+    | false =>
+      cases hl : lookup addr m with
+      | some id => simpa [serD, hl] using Ext.refl m
+      | none =>
+        have := serDs_ext ks ((addr, m.length) :: m)
+        simpa [serD, hl] using Ext.trans (Ext.cons_fresh m addr m.length hl) this
+  | .clo addr s pre post, m => by
+    cases hl : lookup addr m with
+    | some id => simpa [serD, hl] using Ext.refl m
+    | none =>
+      have h1 := serDs_ext pre ((addr, m.length) :: m)
+      have h2 := serDs_ext post (serDs ((addr, m.length) :: m) pre).2
+      simpa [serD, hl] using Ext.trans (Ext.trans (Ext.cons_fresh m addr m.length hl) h1) h2
+theorem serDs_ext : (ts : List T) → (m : IdMap) → Ext m (serDs m ts).2
+  | [], m => by simpa [serDs] using Ext.refl m
+  | t :: ts, m => by
+    simpa [serDs] using Ext.trans (serD_ext t m) (serDs_ext ts (serD m t).2)
+end
+
+def Inj (m : IdMap) : Prop := ∀ a a' i, lookup a m = some i → lookup a' m = some i → a = a'
+
+/-- The id table of the original graph and the one of its relabelled copy (address = id). -/
+structure Rel (m m' : IdMap) : Prop where
+  fwd : ∀ b i, lookup b m = some i → lookup i m' = some i
+  bwd : ∀ i j, lookup i m' = some j → j = i ∧ ∃ b, lookup b m = some i
+  len : m'.length = m.length
+
+theorem Rel.nil : Rel [] [] :=
+  ⟨by intro b i h; simp [lookup] at h, by intro i j h; simp [lookup] at h, rfl⟩
+
+theorem Rel.cons {m m' : IdMap} (hr : Rel m m') (a : Nat) (hl : lookup a m = none) :
+    Rel ((a, m.length) :: m) ((m.length, m.length) :: m') := by
+  refine ⟨?_, ?_, by simp [hr.len]⟩
+  · intro b i hb
+    by_cases e : a = b
+    · subst e; rw [lookup_cons_eq] at hb; cases hb; exact lookup_cons_eq _ _ _
+    · rw [lookup_cons_ne _ _ _ _ e] at hb
+      by_cases e' : m.length = i
+      · subst e'; exact lookup_cons_eq _ _ _
+      · rw [lookup_cons_ne _ _ _ _ e']; exact hr.fwd b i hb
+  · intro i j hi
+    by_cases e' : m.length = i
+    · subst e'; rw [lookup_cons_eq] at hi; cases hi
+      exact ⟨rfl, a, lookup_cons_eq _ _ _⟩
+    · rw [lookup_cons_ne _ _ _ _ e'] at hi
+      obtain ⟨hj, b, hb⟩ := hr.bwd i j hi
+      refine ⟨hj, b, ?_⟩
+      have : a ≠ b := by
+        intro e; subst e; rw [hl] at hb; cases hb
+      rw [lookup_cons_ne _ _ _ _ this]; exact hb
+
+/-- Looking the relabelled address up in the relabelled table mirrors the original lookup. -/
+theorem Rel.lookup_rho {m m' mfin : IdMap} (hr : Rel m m') (hext : Ext m mfin) (hinj : Inj mfin)
+    (a : Nat) (ha : lookup a mfin ≠ none) :
+    lookup (rho mfin a) m' = lookup a m := by
+  cases hfin : lookup a mfin with
+  | none => exact absurd hfin ha
+  | some i =>
+    have hrho : rho mfin a = i := by simp [rho, hfin]
+    rw [hrho]
+    cases hl : lookup a m with
+    | some j =>
+      have : j = i := by
+        have := hext a j hl
+        rw [hfin] at this; cases this; rfl
+      subst this
+      exact hr.fwd a j hl
+    | none =>
+      cases hl' : lookup i m' with
+      | none => rfl
+      | some j =>
+        obtain ⟨_, b, hb⟩ := hr.bwd i j hl'
+        have hb' := hext b i hb
+        have : b = a := hinj b a i hb' hfin
+        subst this
+        rw [hl] at hb; cases hb
+
+mutual
+theorem reser (mfin : IdMap) (hinj : Inj mfin) :
+    (t : T) → (m m' : IdMap) → Rel m m' → Ext (serD m t).2 mfin → AllIn mfin t →
+    (serD m' (relabel mfin t)).1 = (serD m t).1 ∧ Rel (serD m t).2 (serD m' (relabel mfin t)).2
+  | .atom a, m, m', hr, _, _ => by simpa [serD, relabel] using hr
+  | .ptr addr s, m, m', hr, hext, hin => by
+    have hm : Ext m mfin := Ext.trans (serD_ext (.ptr addr s) m) hext
+    have ha : lookup addr mfin ≠ none := hin addr (.inr (by simp [ptrs]))
+    have hlk := hr.lookup_rho hm hinj addr ha
+    cases hl : lookup addr m with
+    | some id => rw [hl] at hlk; simpa [serD, relabel, hl, hlk] using hr
+    | none => rw [hl] at hlk; simpa [serD, relabel, hl, hlk] using hr
+  | .node addr uniq s ks, m, m', hr, hext, hin => by
+    have hk : AllInL mfin ks := by
+      intro x hx
+      apply hin x
+      cases uniq <;> rcases hx with hx | hx <;> simp [addrs, ptrs, hx]
+    cases uniq with
+    | true =>
+      have hext' : Ext (serDs m ks).2 mfin := by simpa [serD] using hext
+      obtain ⟨h1, h2⟩ := resers mfin hinj ks m m' hr hext' hk
+      simp [serD, relabel, h1, h2]
+    | false =>
+      have hm : Ext m mfin := Ext.trans (serD_ext (.node addr false s ks) m) hext
+      have ha : lookup addr mfin ≠ none := hin addr (.inl (by simp [addrs]))
+      have hlk := hr.lookup_rho hm hinj addr ha
+      cases hl : lookup addr m with
+      | some id =>
+        rw [hl] at hlk
+        simpa [serD, relabel, hl, hlk] using hr
+      | none =>
+        rw [hl] at hlk
+        have hext' : Ext (serDs ((addr, m.length) :: m) ks).2 mfin := by
+          simpa [serD, hl] using hext
+        have hafin : lookup addr mfin = some m.length :=
+          hext' addr m.length (serDs_ext ks _ addr m.length (lookup_cons_eq _ _ _))
+        have hrho : rho mfin addr = m.length := by simp [rho, hafin]
+        rw [hrho] at hlk
+        have hr1 := hr.cons addr hl
+        obtain ⟨h1, h2⟩ :=
+          resers mfin hinj ks ((addr, m.length) :: m) ((m.length, m.length) :: m') hr1 hext' hk
+        simp only [serD, relabel, hl, hrho, hlk, hr.len, Bool.false_eq_true, if_false]
+        rw [← hr.len] at h1 h2 ⊢
+        rw [hr.len] at h1 h2 ⊢
+        exact ⟨by rw [h1], h2⟩
+  | .clo addr s pre post, m, m', hr, hext, hin => by
+    have hp : AllInL mfin pre := by
+      intro x hx
+      apply hin x
+      rcases hx with hx | hx <;> simp [addrs, ptrs, hx]
+    have hq : AllInL mfin post := by
+      intro x hx
+      apply hin x
+      rcases hx with hx | hx <;> simp [addrs, ptrs, hx]
+    have hm : Ext m mfin := Ext.trans (serD_ext (.clo addr s pre post) m) hext
+    have ha : lookup addr mfin ≠ none := hin addr (.inl (by simp [addrs]))
+    have hlk := hr.lookup_rho hm hinj addr ha
+    cases hl : lookup addr m with
+    | some id =>
+      rw [hl] at hlk
+      simpa [serD, relabel, hl, hlk] using hr
+    | none =>
+      rw [hl] at hlk
+      have hext2 : Ext (serDs (serDs ((addr, m.length) :: m) pre).2 post).2 mfin := by
+        simpa [serD, hl] using hext
+      have hext1 : Ext (serDs ((addr, m.length) :: m) pre).2 mfin :=
+        Ext.trans (serDs_ext post _) hext2
+      have hafin : lookup addr mfin = some m.length :=
+        hext1 addr m.length (serDs_ext pre _ addr m.length (lookup_cons_eq _ _ _))
+      have hrho : rho mfin addr = m.length := by simp [rho, hafin]
+      rw [hrho] at hlk
+      have hr1 := hr.cons addr hl
+      obtain ⟨h1, h2⟩ :=
+        resers mfin hinj pre ((addr, m.length) :: m) ((m.length, m.length) :: m') hr1 hext1 hp
+      obtain ⟨h3, h4⟩ :=
+        resers mfin hinj post (serDs ((addr, m.length) :: m) pre).2
+          (serDs ((m.length, m.length) :: m') (relabels mfin pre)).2 h2 hext2 hq
+      simp only [serD, relabel, hl, hrho, hlk, hr.len, relabels_length]
+      exact ⟨by rw [h1, h3], h4⟩
+theorem resers (mfin : IdMap) (hinj : Inj mfin) :
+    (ts : List T) → (m m' : IdMap) → Rel m m' → Ext (serDs m ts).2 mfin → AllInL mfin ts →
+    (serDs m' (relabels mfin ts)).1 = (serDs m ts).1 ∧
+      Rel (serDs m ts).2 (serDs m' (relabels mfin ts)).2
+  | [], m, m', hr, _, _ => by simpa [serDs, relabels] using hr
+  | t :: ts, m, m', hr, hext, hin => by
+    have hext2 : Ext (serDs (serD m t).2 ts).2 mfin := by simpa [serDs] using hext
+    have hext1 : Ext (serD m t).2 mfin := Ext.trans (serDs_ext ts _) hext2
+    obtain ⟨h1, h2⟩ := reser mfin hinj t m m' hr hext1 hin.head
+    obtain ⟨h3, h4⟩ := resers mfin hinj ts (serD m t).2 (serD m' (relabel mfin t)).2 h2 hext2 hin.tail
+    simp only [serDs, relabels]
+    exact ⟨by rw [h1, h3], h4⟩
+end
+
 /-! ### Framing: `parse` inverts `flat`, and rejects every proper prefix -/
 
 mutual
